@@ -185,7 +185,7 @@ end
 /-- `get_ast` (for non-LIKE geometry): `start = union $` -/
 def parseGeom (s : String) : Except PErr Geom :=
   let cs := normalize s.toList
-  match pUnion (2 * cs.length + 4) cs with
+  match pUnion (3 * cs.length + 3) cs with
   | .ok (g, []) => .ok g
   | .ok _ => .error .syntax
   | .error e => .error e
